@@ -655,6 +655,9 @@ def _ev_programs(tier):
     e0, e1, e2, k, v = _sg("e0", 2), _sg("e1", 2), _sg("e2", 2), _sg("k", 2), _sg("v", 2)
     add("k.eq(k+1); Array([e0,e1,e2])[k].eq(v): the key assigned earlier in the same step - the target is selected by the key's value BEFORE the step (non-blocking assignment, `case (k)` in the emitted text)",
         [k.eq(k + 1), Array([e0, e1, e2])[k].eq(v)], [e0, e1, e2, k, v])
+    e0, e1, e2, k, v, yn = _sg("e0", 2), _sg("e1", 2), _sg("e2", 3), _sg("k", 2), _sg("v", 2), _sg("yn", 3)
+    add("Array([e0,e1,e2])[k - 1].eq(v); y.eq(Array([e0,e1,e2])[k - 2]): a NEGATIVE key is a Python negative index in the simulator (-1 = last element, -2 = the one before)",
+        [Array([e0, e1, e2])[k - 1].eq(v), yn.eq(Array([e0, e1, e2])[k - 2])], [e0, e1, e2, k, v, yn])
     e0, e1, k, v, c = _sg("e0", 2), _sg("e1", 2), _sg("k", 1), _sg("v", 2), _sg("c", 1)
     add("If(c, k.eq(~k)); Array([e0,e1])[k].eq(v); Array([e0,e1])[k][0].eq(c): key conditionally reassigned before two proxy targets",
         [If(c, k.eq(~k)), Array([e0, e1])[k].eq(v), Array([e0, e1])[k][0].eq(c)], [e0, e1, k, v, c])
